@@ -132,8 +132,8 @@ impl Prop for C01 {
     }
     fn plan(&self, tier: Tier) -> Plan {
         match tier {
-            Tier::Quick => Plan { cases: 40_000, tape_len: 160 },
-            Tier::Thorough => Plan { cases: 1_200_000, tape_len: 260 },
+            Tier::Quick => Plan { cases: 3_000_000, tape_len: 160 },
+            Tier::Thorough => Plan { cases: 80_000_000, tape_len: 260 },
         }
     }
     fn run(&self, tape: &[u16], st: &mut Stats) -> PResult {
